@@ -71,6 +71,8 @@ def run_case(stream, seed, ctx, params):
     d = P.probe_deck(mn, ps, facet=facet)
     if big:
         d.probe_points = [[c_ * k_ for c_ in q] for q in G.sample_points(rng, 250)]
+    if mn == 'trc':
+        d.probe_points = list(getattr(d, 'probe_points', None) or []) + G.trc_probe_points(ps, rng)
     r = run_deck(ctx, stream, d, [], rng, npts=params.get('npts', 300),
                  extra_sig={'body': kind, 'facet': facet})
     if r is not None:
